@@ -228,7 +228,7 @@ def run_case(kind, params, ctx):
         if not r["ok"] or r["out"] != exp:
             ctx.violation(f"cli/wif-encode-wrong/{net}/{typ}", f"bits {' '.join(argv)} printed {r['out'][:60]!r} (ret {r['ret']!r}), reference {exp!r}")
             return
-        r2 = clihelp.run(["wif", "--decode"], exp)
+        r2 = clihelp.run(["wif", "--decode"] + (["-N", net] if params["salt"] % 3 == 0 else []), exp)     # also with the (redundant) network option spelled out
         try:
             d = _json.loads(r2["out"].decode())
         except Exception:
